@@ -322,10 +322,12 @@ func judge(o *runOut, k int, pub *PubSpec, zones []*simcf.Zone, pre, post map[st
 
 	// ---- every request: only GETs and PATCHes of requested records ----
 	writes := map[string]int{} // record id -> applied PATCHes
+	patchSent := map[string]bool{}
 	for _, e := range entries {
 		switch e.Op {
 		case "zones", "list":
 		case "patch":
+			patchSent[e.RecordID] = true
 			z := zoneByID[e.ZoneID]
 			ok := false
 			if z != nil {
@@ -521,6 +523,11 @@ func judge(o *runOut, k int, pub *PubSpec, zones []*simcf.Zone, pre, post map[st
 		}
 		cur := isCurrent(post[id].Data.Value, b64)
 
+		if r.Code == publish.StatusNotFound && occ[id] >= 2 && patchSent[id] {
+			// the call itself addressed a PATCH to this record: it had found it
+			o.fail("not-found-after-found", "a record the same call has already written to (or tried to) is reported not-found when it is named again", "publish #%d: target %d %v is record %s, named for the %d. time; results %v%s", k, i, tg, id, occ[id], codes, note)
+			continue
+		}
 		if !ok {
 			if aff {
 				// the statement allows error / not-found for targets hit by a failure
